@@ -10,6 +10,7 @@ import PdfModel.Model.Numeric
   c14.walk <root> <objs>                   obj `l<n>` | `i` | `i<k>+<k>…` | `b`   → `ok <calls> <gets>` | `err <gets>`
   c14.page <n> <rootkids> <objs>           obj `t<count>` | `t<count>:<k>+…` | `p` | `b`; rootkids `k+k…` or `-`   → `ok <leaf>` | `err`
   c14.cs <k> <objs>                        obj `n` | `x<b>` | `s<b>` | `d<b>` | `o` | `b`  → ok | err
+  c14.ap <k> <objs>                        obj `s` | `d` | `d<v>+<v>…` | `b`   → ok | err
   c14.prev <start> <secs>                  sec `u` (unreadable) | `e` (no /Prev) | `p<pos>`  → `ok <sections>` | err
   c14.xref <tolerant> <W> <index pairs f.n,…> <data hex>   → `ok first:e+e…;first:…` (entry `f.a.b | r.a.b | s.a.b`) | err
   c14.objstm <first> <N> <pairs a.b,…> <index> <dataLen>   (a, b: number or `x`)  → `ok <start> <end>` | err
@@ -89,6 +90,12 @@ def parseCObj (s : String) : Option CObj :=
   else if s.startsWith "x" then (natOf (dropPrefix s 1)).map .indexed
   else if s.startsWith "s" then (natOf (dropPrefix s 1)).map .separation
   else if s.startsWith "d" then (natOf (dropPrefix s 1)).map .deviceN
+  else none
+
+def parseAObj (s : String) : Option AObj :=
+  if s == "s" then some .stream
+  else if s == "b" then some .bad
+  else if s.startsWith "d" then (parseNats (dropPrefix s 1)).map .dict
   else none
 
 -- ---------------------------------------------------------------- prev
@@ -215,6 +222,10 @@ def handle (args : List String) : String :=
   | ["c14.cs", k, objs] =>
     match natOf k, mapM? parseCObj (listOf objs ",") with
     | some k, some g => (csLoad g 5 k).tag
+    | _, _ => "bad-request"
+  | ["c14.ap", k, objs] =>
+    match natOf k, mapM? parseAObj (listOf objs ",") with
+    | some k, some g => (apLoad g 2 k).tag
     | _, _ => "bad-request"
   | ["c14.prev", start, secs] =>
     match natOf start, mapM? parseSec (listOf secs ",") with
